@@ -1313,8 +1313,10 @@ class Run:
             cand = [t for t in pooled if t.state.status == 'waiting']
             if rng.random() < 0.9:
                 # a task that was triggered already and still waits for the main loop to prepare its job is only
-                # rarely triggered again (finding retrigger-queued-and-started: the rest of such a run is tainted)
-                cand = [t for t in cand if not t.waiting_on_job_prep]
+                # rarely triggered again, and a held task is rarely triggered (finding queued-and-started: a second
+                # trigger / a release from hold queues the task although it is about to run; the rest of such a run
+                # is tainted)
+                cand = [t for t in cand if not t.waiting_on_job_prep and not t.state.is_held]
             if rng.random() < 0.1:
                 cand = pooled
             if not cand:
